@@ -14,9 +14,9 @@ CHECKS = {
    note="Timer-driven flushes are not scheduled by the replay (forced flushes only); PERCENTILE and shifted fields are not in this check's schema.",
    technique="TLA+ model checking (TLC) + replay of TLC behaviours into the real code + trace validation"),
  "C02": dict(level="model_checking", design="5 C02",
-   text="TLC explores every interleaving of ingest, flush, offset-file and crash/recovery steps of spec/Store.tla for small constants (invariants ExactlyOnce, AtMostOnce, MemLockStep, DiskLockStep, OffsetsOrdered); TLC-simulated behaviours with crash images at every instrumented step are replayed on the real database through scheduler gates, every recorded trace is validated against the specification with the same predicates evaluated at every step, and the caught-up end state is compared with the reference bag of point ids. Asynchronous part: a child process ingesting with 1-3 ms timer flushes is killed with SIGKILL at random instants, three rounds per directory; every acknowledged point must then be in every table exactly once, a point in flight at most once.",
+   text="TLC explores every interleaving of ingest, flush, offset-file and crash/recovery steps of spec/Store.tla for small constants (invariants ExactlyOnce, AtMostOnce, MemLockStep, DiskLockStep, OffsetsOrdered); TLC-simulated behaviours with crash images at every instrumented step are replayed on the real database through scheduler gates, every recorded trace is validated against the specification with the same predicates evaluated at every step, and the caught-up end state is compared with the reference bag of point ids. Asynchronous part: a child process ingesting with 1-3 ms timer flushes is killed with SIGKILL at random instants, three rounds per directory; every acknowledged point must then be in every table exactly once, a point in flight at most once. Offsets part: spec/Pipeline.tla (the pipeline at the level of stream offsets, any number of sources; invariants DurableBehind, Recoverable, Visible) is model checked, and the hook events of the repository's own TestSingleDB / TestStorage, recorded through `go test -overlay`, are validated against it (spec/TracePipe.tla).",
    note="Crash = loss of all volatile state at a hook point, or SIGKILL of a child process at a random instant (process-kill model: the page cache survives; fsync omissions are invisible). Bounds: <= 6 WAL entries, <= 5 flushes, <= 3 crash/restart rounds per behaviour. Trusted: TLC, the harness's decoding of query rows into bags.",
-   technique="TLA+ model checking (TLC) + replay of TLC behaviours into the real code + trace validation + asynchronous SIGKILL of a child process"),
+   technique="TLA+ model checking (TLC) + replay of TLC behaviours into the real code + trace validation (own scenarios and the repository's own tests) + asynchronous SIGKILL of a child process"),
 }
 
 CHECKS["C14"] = dict(level="model_checking", design="5 C14",
@@ -68,8 +68,8 @@ CHECKS["C08"] = dict(level="model_checking", design="5 C08",
 
 CHECKS["C12"] = dict(level="model_checking", design="5 C12",
    text="spec/Cluster.tla models the offset hand-over between leaders and followers (per-table per-source offsets, the last-delivered offset of a link, the leader's per-(follower, table) starting points and reader restart, follower-side de-duplication, flush, crash, restart from a directory snapshot, link cuts, leader restarts); TLC checks NoDuplicate, OnlyRouted, Persisted and Converged over every interleaving of a small instance; TLC-simulated and goal-directed fault sequences (skip-only flush / data / flush / crash orders, one table flushed and the other not, an older directory snapshot, a cut during a flush) are replayed on an in-process cluster of real databases (1-2 leaders, 2-3 partitions, 1-2 followers each) with harness-owned links and crash images, and at every exactly-detected quiescent point every follower table is compared with the reference bag: never more than was inserted, replicas of a partition equal, the partitions together exactly the inserted points.",
-   note="An rpc part drops and re-establishes the real rpc follow streams of follower databases (zvwire) while points arrive. The leader's bookkeeping of every execution (connect messages, starting points, entries with the followers included, deliveries) is validated by TLC against spec/TraceFollow.tla. The gRPC transport and server.followSource's back-off loop are replaced by harness-owned links that follow the same hand-over protocol (same Follow message reused, EarliestOffset = last delivered offset). No trace validation of the leader's internal pipeline in this round: the specification is bound through replayed behaviours and state comparison at quiescent points.",
-   technique="TLA+ model checking (TLC) + replay of TLC fault sequences into an in-process cluster of the real code + trace validation of the leader's follower bookkeeping (TraceFollow.tla)")
+   note="An rpc part drops and re-establishes the real rpc follow streams of follower databases (zvwire) while points arrive. The hook events of the repository's own TestServers (real servers over rpc, restarts of leaders and followers that reuse their directories), recorded through `go test -overlay`, are validated against spec/TracePipe.tla: every table instance's pipeline, the resume point of every restarted table, and routing-free rules for the leader's inclusion of followers. The leader's bookkeeping of every execution (connect messages, starting points, entries with the followers included, deliveries) is validated by TLC against spec/TraceFollow.tla. The gRPC transport and server.followSource's back-off loop are replaced by harness-owned links that follow the same hand-over protocol (same Follow message reused, EarliestOffset = last delivered offset). No trace validation of the leader's internal pipeline in this round: the specification is bound through replayed behaviours and state comparison at quiescent points.",
+   technique="TLA+ model checking (TLC) + replay of TLC fault sequences into an in-process cluster of the real code + trace validation of the leader's follower bookkeeping (TraceFollow.tla) and of the repository's own cluster test (TracePipe.tla)")
 CHECKS["C10"] = dict(level="model_checking", design="5 C10",
    text="On the clusters of C12 (P in 1..5, 1-2 leaders, 1-2 followers per partition, tables partitioned by each dimension subset, by nothing, and by dimensions the table's own GROUP BY drops) every generated query (pushdown-eligible or not: grouping, period multiples, stride, shift, crosstab, time ranges, WHERE, HAVING, IN- and FROM-sub-queries, ORDER BY, LIMIT) is run through a leader and on a standalone database fed the same points; rows must be equal as multisets, in the same order where ORDER BY decides it; the partitions of every table together hold every inserted point exactly once (the routing is observed, not predicted).",
    note="Memstore-inclusive queries only (disk-only results depend on each node's own flush history). With ORDER BY + LIMIT the sequence of sort keys is compared (ties at the cut may be broken either way). Virtual clocks of all nodes are advanced together.",
